@@ -75,6 +75,23 @@ def checksum(v):
     return sum((weight(i) * x for i, x in enumerate(v)), F(0))
 
 
+class _LogSink(logging.Handler):
+    """formats every record (message and time) and drops it"""
+
+    def __init__(self):
+        super().__init__(logging.DEBUG)
+        self.setFormatter(logging.Formatter("%(asctime)s %(name)s %(message)s"))
+
+    def emit(self, record):
+        try:
+            self.format(record)
+        except Exception:      # noqa
+            pass
+
+
+_LOG_SINK = _LogSink()
+
+
 class _ErrCatcher(logging.Handler):
     def __init__(self):
         super().__init__(level=logging.ERROR)
@@ -141,6 +158,8 @@ class Trace:
         self.event_vec = []
         self.crash = None
         self.unobservable = False     # some state could not be observed through the public API (no model comparison)
+        self.events2 = None           # what a second subscriber to the order events received (some cases)
+        self.subscribers_agree = True
 
 
 async def _run_case(case, max_concurrent=1):
@@ -356,10 +375,23 @@ async def _run_case(case, max_concurrent=1):
             return
         await record(a, reply)
 
+    bar_times = sorted({int(b[1]) for b in case["bars"]})
+
     def make_handler(pi):
         async def on_bar(ev):
             i = bar_index_by_id.get(id(ev))
-            for a in case["script"].get(str(i), []):
+            acts = case["script"].get(str(i), [])
+            later = [t for t in bar_times if i is not None and t > int(case["bars"][i][1])]
+            if acts and later and case_variant(case) & 16 and i % 3 == 1:
+                # "rebalance when the next bar closes": the actions are left to a job scheduled at the time of the next
+                # bar event, which the dispatcher runs before it dispatches the events of that time
+                async def job(acts=acts, t=later[0]):
+                    await record(["tick", t], [F(0)])         # the clock is at the job's time, no bar of that time yet
+                    for a in acts:
+                        await do_action(a)
+                d.schedule(T0 + datetime.timedelta(seconds=later[0]), job)
+                return
+            for a in acts:
                 await do_action(a)
         return on_bar
 
@@ -406,6 +438,13 @@ async def _run_case(case, max_concurrent=1):
     if not case.get("subscribe_first", False):
         for pi, pair in enumerate(pairs):
             subscribe_pair(pi, pair)
+    if case_variant(case) & 8:
+        # a second subscriber to the order events (a journal next to the strategy), registered first
+        tr.events2 = []
+
+        async def journal(ev):
+            tr.events2.append((us(ev.when), ev.order.id, ev.order.is_open, ev.order.amount_filled))
+        e.subscribe_to_order_events(journal)
     e.subscribe_to_order_events(on_order_event)
     d.subscribe_all(post_sniffer, front_run=False)
     try:
@@ -419,6 +458,9 @@ async def _run_case(case, max_concurrent=1):
         fee = sum((fr(x) for x in info.fees.values()), F(0))
         ev_vec += [F(w), F(idx), F(int(info.is_open)), fr(info.amount_filled), fr(info.quote_amount_filled), fee]
     tr.event_vec = ev_vec
+    if tr.events2 is not None:
+        mine = [(w, info.id, info.is_open, info.amount_filled) for (w, idx, info) in tr.events]
+        tr.subscribers_agree = mine == tr.events2
     tr.exchange = e
     tr._keep = srcs
     return tr
@@ -433,7 +475,15 @@ def run_case(case, prec=28, max_concurrent=1, rounding=None):
     ctx.prec = prec
     if rounding is not None:
         ctx.rounding = rounding
-    logging.getLogger("basana").setLevel(logging.CRITICAL + 1)
+    lg = logging.getLogger("basana")
+    if case_variant(case) & 4:
+        # a quarter of the cases run with the library's logging fully on (DEBUG), into a sink that formats every record
+        lg.setLevel(logging.DEBUG)
+        lg.propagate = False
+        if _LOG_SINK not in lg.handlers:
+            lg.addHandler(_LOG_SINK)
+    else:
+        lg.setLevel(logging.CRITICAL + 1)
     from basana.core import helpers as core_helpers
     orig_round = core_helpers.round_decimal
     if rounding is not None:
@@ -531,11 +581,14 @@ def g_op(case, step):
 
 
 def has_reconfig(tr):
-    return any(s["op"][0] == "reconfig" for s in tr.steps)
+    """does the history need the extended layer of the model (precision setters, clock ticks of scheduled jobs)?"""
+    return any(s["op"][0] in ("reconfig", "tick") for s in tr.steps)
 
 
 def g_xop(case, step):
     op = step["op"]
+    if op[0] == "tick":
+        return f"(XTick {zlit(when_us(op[1]))}%Z)"
     if op[0] == "reconfig":
         if op[1] == "sym":
             return f"(XSymPrec {g_sym(case, op[2])} {int(op[3])}%nat)"
